@@ -55,6 +55,13 @@ impl Timer {
     self.cycle_count
   }
 
+  /// Verification hook (add-only, compiled only with `--cfg gb_dynarec_verif`):
+  /// (cycle_count, counter, modulo, enabled_mask, timer_clock_mask)
+  #[cfg(gb_dynarec_verif)]
+  pub fn verif_state(&self) -> (u32, u8, u8, u32, u32) {
+    (self.cycle_count, self.counter, self.modulo, self.enabled_mask, self.timer_clock_mask)
+  }
+
   pub fn set_counter(&mut self, value: u8) {
     self.counter = value;
   }
